@@ -367,6 +367,7 @@ func runContractProperty(e *Engine, res *checkResult, timeout int, two bool, wor
 	obls = append(obls, e.fieldsComparedObligations(p)...)
 	obls = append(obls, e.freshInLoopObligations(p)...)
 	obls = append(obls, e.forbidGlobalObligations(p)...)
+	obls = append(obls, e.storesOnlyObligations(p)...)
 	// anonymous functions that call a function with a P-tagged precondition
 	// must have been reached by inlining (they are not verified on their own)
 	for _, f := range e.allFuncs {
